@@ -216,6 +216,72 @@ func callsWorker(args []string) {
 				theInterleaveCache.mu.Unlock()
 			}
 		}
+		// ---- a function registered globally AFTER a type was analysed and cached is seen by the next call on that type
+		// (new name: the "is not exist" clause goes away; name of a built-in: the registered function replaces it)
+		{
+			lt := reflect.StructOf([]reflect.StructField{
+				{Name: "G", Type: reflect.TypeOf(""), Tag: `valid:"c08late|M9g"`},
+				{Name: "H", Type: reflect.TypeOf(0), Tag: `valid:"ge=9|M9h"`}})
+			lv := reflect.New(lt).Elem()
+			lv.Field(0).SetString("g")
+			lv.Field(1).SetInt(7)
+			src := lv.Addr().Interface()
+			notExist := expE{"F", "", `F:valid "c08late" is not exist, You can call SetValidFn`}
+			emitCall(enc, &walkCall{Entry: "struct", Src: src}, []expE{notExist, {"C", "H", "M9h"}}, cfg+":late-registration:before", map[string]interface{}{"cache": cfg})
+			valid.SetCustomerValidFn("c08late", markFn("G1"))
+			g1 := map[string]string{"c08late": "G1"}
+			emitCall(enc, &walkCall{Entry: "struct", Src: src, Global: g1}, []expE{{"C", "G", "FNG1"}, {"C", "H", "M9h"}}, cfg+":late-registration:new-name", map[string]interface{}{"cache": cfg})
+			valid.SetCustomerValidFn("ge", markFn("G2"))
+			g2 := map[string]string{"c08late": "G1", "ge": "G2"}
+			emitCall(enc, &walkCall{Entry: "struct", Src: src, Global: g2}, []expE{{"C", "G", "FNG1"}, {"C", "H", "FNG2"}}, cfg+":late-registration:builtin-name", map[string]interface{}{"cache": cfg})
+		}
+		// ---- tag names nobody has used before are used for the first time at the same moment, on one type: each call
+		// is judged by its own tag (the cache key tells the tag names apart whatever the order of arrival)
+		{
+			rounds, ng := 200, 8
+			var viol []interface{}
+			for k := 0; k < rounds; k++ {
+				fields := make([]reflect.StructField, ng)
+				for f := 0; f < ng; f++ {
+					tag := ""
+					for g := 0; g < ng; g++ { // under tag t<k>_<g> only field g is required
+						rule := "eq=5|M1x"
+						if g == f {
+							rule = fmt.Sprintf("required|M1f%d", f)
+						}
+						tag += fmt.Sprintf(`t%d_%d:"%s" `, k, g, rule)
+					}
+					fields[f] = reflect.StructField{Name: fmt.Sprintf("F%d", f), Type: reflect.TypeOf(""), Tag: reflect.StructTag(tag)}
+				}
+				sv := reflect.New(reflect.StructOf(fields)).Elem()
+				src := sv.Addr().Interface() // every field empty
+				errs := make([]error, ng)
+				var wg sync.WaitGroup
+				start := make(chan struct{})
+				for g := 0; g < ng; g++ {
+					wg.Add(1)
+					go func(g int) {
+						defer wg.Done()
+						<-start
+						errs[g] = valid.ValidateStruct(src, fmt.Sprintf("t%d_%d", k, g))
+					}(g)
+				}
+				close(start)
+				wg.Wait()
+				for g := 0; g < ng; g++ {
+					want := fmt.Sprintf("M1f%d", g)
+					got := "<nil>"
+					if errs[g] != nil {
+						got = errs[g].Error()
+					}
+					if (strings.Count(got, "M1f") != 1 || !strings.Contains(got, want)) && len(viol) < 5 {
+						viol = append(viol, map[string]interface{}{"kind": "first-use-of-several-tags-at-once", "cache": cfg, "round": k,
+							"tag": fmt.Sprintf("t%d_%d", k, g), "result": got, "expected": "exactly the clause " + want})
+					}
+				}
+			}
+			_ = enc.Encode(caseLine{Viol: viol})
+		}
 	case "c12":
 		c12Sequence(r, enc, types, n, cfg)
 	case "c11":
